@@ -160,6 +160,11 @@ def build_specs(basic_nodes: dict, basic_marks: dict, list_nodes: dict) -> dict:
                       "toDOM": lambda _n: ["p", {"class": "note"}, 0]}}
         n.update({k: v for k, v in base.items() if k != "doc"})
         Z[cid] = {"nodes": n, "marks": _strip(basic_marks), "context": ctx}
+    # the basic schema with no textblock admitting any mark (same node and mark names, other permissions)
+    n = _strip(basic_nodes)
+    for k in ("paragraph", "heading"):
+        n[k] = {**n[k], "marks": ""}
+    Z["basic_nomarks"] = {"nodes": n, "marks": _strip(basic_marks)}
     # inline nodes WITH content: an atom (`atom: true` is not the same as leaf) and a plain inline container
     n = _strip(basic_nodes)
     n["chip"] = {"inline": True, "group": "inline", "content": "text*", "atom": True,
